@@ -9,6 +9,35 @@ VERIF = os.path.dirname(HERE)
 
 # property -> (technique, level text, level note, design ref); only properties with a working check
 CLAIMED = {
+    "C07": (
+        "TLC: set-level semantics of centre containment (H3Polygon.tla) + TLC trace validation of both fill algorithms against independent three-valued point-in-polygon observations, candidate set closed under the spec's neighbour graph",
+        "H3Polygon.tla states what a centre-containment fill is in terms of sets of cells and per-cell observations; MC_Polygon "
+        "shows the mode clauses are satisfiable for every observation assignment geometry allows and force nesting on clear "
+        "cells. Every recorded (polygon, resolution) pair is validated by TLC (Trace_Poly.tla, WHICH=C07): polygonToCells and "
+        "polygonToCellsExperimental(CENTER) both succeed, return duplicate-free valid cells of the resolution within "
+        "maxPolygonToCellsSize / maxPolygonToCellsSizeExperimental, contain every candidate whose centre is clearly inside "
+        "and none whose centre is clearly outside; the candidate set (raster of latLngToCell over the polygon and along its "
+        "edges, 1-disks, all outputs; built independently of the fills) is checked by TLC to be closed under N at every "
+        "inside cell. Inputs: 260 (4000) generated polygons: convex, concave stars, needles 1:20-1:500, smaller than a cell, up "
+        "to 1500 (5000) cells, 1-3 holes, holes smaller than a cell, holes swallowing cells, outlines along cell edges; on all "
+        "12 pentagons, the antimeridian, high latitudes, icosahedron edges, both hemispheres, both windings, res 0-15.",
+        "'Centre inside the polygon' is a numeric projection (harness/vpoly.h: long double crossing number on loops unwrapped "
+        "the short way round, ambiguity band 1e-11 rad; DESIGN 4.3/6); ambiguous centres are unconstrained. Blind spot: an "
+        "inside cell in a connected piece of the inside set that neither the raster (0.55 edge lengths) nor any output touches.",
+        "DESIGN.md 3.9, 5/C07, 11"),
+    "C15": (
+        "TLC: set-level semantics of the four containment modes + nesting (H3Polygon.tla, MC_Polygon) + TLC trace validation of all modes, capacity and flag errors against independent three-valued geometric observations",
+        "Same events as C07, judged with WHICH=C15: FULL only if centre and all vertices are (possibly) inside and always if the "
+        "cell is clearly wholly interior; OVERLAPPING always if cell and polygon clearly share a point and never if clearly "
+        "disjoint; FULL within CENTER within OVERLAPPING within OVERLAPPING_BBOX as sets; every mode duplicate-free, valid, "
+        "within maxPolygonToCellsSizeExperimental; capacity count-1 / 0 -> E_MEMORY_BOUNDS with canaries intact and at most "
+        "capacity slots written, capacity = count -> success; nine invalid flag words -> E_OPTION_INVALID from both "
+        "functions with nothing written.",
+        "The observations vin / wholly-interior / shares-a-point are numeric projections (harness/vpoly.h); the cell is taken "
+        "with straight chords in the lat/lng plane and everything within the chord-vs-great-circle bulge of its boundary is "
+        "ambiguous (unconstrained); cells containing a pole are excluded as the property says. Found and fixed: OVERLAPPING "
+        "dropped a cell whose centre lies in a hole contained in the cell (known_findings.json).",
+        "DESIGN.md 3.9, 5/C15, 11"),
     "C02": (
         "TLC: exact rational model of the planar hexagon rounding (nine branches + folding = nearest centre, all lattice points) + TLC trace validation of latLngToCell events (containment deviation, exactness via the neighbour graph)",
         "The planar rounding _hex2dToCoordIJK is transcribed into integer arithmetic in skew coordinates (H3Hex2d.tla) and TLC "
